@@ -31,6 +31,14 @@ def run(R, tier, seed, only=None):
         d = core.Driver(drv)
         litfmt.check_litfmt(R, d, tier)
         d.close()
+    if only in (None, "interp"):
+        import os
+        import sys
+        sys.path.insert(0, os.path.join(core.VERIF, "engines", "mirsym"))
+        import litfmt
+        d = core.Driver(drv)
+        litfmt.check_interp(R, d, tier)
+        d.close()
     R.cov["states"] = max(1, R.cov.get("states", 0))
     R.cov["transitions"] = max(1, R.cov.get("transitions", 0))
     R.cov["traces_validated_against_impl"] = R.cov["queries"].get("sat", 0)
